@@ -56,7 +56,16 @@ def run_tlc(tier, cov):
     w = max(2, core.NCPU // 4)
 
     def one(j):
-        return core.tlc(j[0], cfg=j[1], workers=w, timeout=3000, coverage=j[2], heap="3g")
+        cache = os.environ.get("C41_TLC_CACHE")     # DEVCACHE
+        cf = cache and os.path.join(cache, j[1] + ".pickle")     # DEVCACHE
+        if cf and os.path.exists(cf):     # DEVCACHE
+            import pickle     # DEVCACHE
+            return pickle.load(open(cf, "rb"))     # DEVCACHE
+        r = core.tlc(j[0], cfg=j[1], workers=w, timeout=3000, coverage=j[2], heap="3g")
+        if cf and r.ok:     # DEVCACHE
+            import pickle     # DEVCACHE
+            pickle.dump(r, open(cf, "wb"))     # DEVCACHE
+        return r
     with concurrent.futures.ThreadPoolExecutor(max_workers=4) as ex:
         rs = list(ex.map(one, jobs))
     out = {}
@@ -128,8 +137,8 @@ def make_b3_modules(groups, rng, per_module, tag):
     return mods
 
 
-def run_fact_jobs(mods, par):
-    wd = core.subdir("c41facts")
+def run_fact_jobs(mods, par, tag="b3"):
+    wd = core.subdir("c41facts_" + tag)
     for i, (m, job) in enumerate(mods):
         job["workdir"] = os.path.join(wd, job["name"])
     # spread the modules over children (import cost is paid once per child)
@@ -218,8 +227,8 @@ def probe_directive(key):
     return {"d": ["cdivision"], "i": ["wraparound", "boundscheck"], "j": ["boundscheck"], "B": ["binding"]}[key[-1]]
 
 
-def judge_run(rep, m, spec, b, stats):
-    """B1: run one built module"""
+def execute_run(m, b):
+    """B1: run one built module -> (calls, meta, observations)"""
     cl = [["mod_results", []]]
     meta = [("mod", None, L.mod_expectations(m))]
     for k in range(len(m.cases)):
@@ -230,6 +239,11 @@ def judge_run(rep, m, spec, b, stats):
             cl.append(["k%d_run" % k, [1, 0, z, {"py": "MV"}, -1, 3], True])
             meta.append(("zero", k, {key: "ZE"}))
     obs = calls.run_calls(b, cl, prelude=PRELUDE, timeout=900)
+    return cl, meta, obs
+
+
+def judge_run(rep, m, spec, executed, stats):
+    cl, meta, obs = executed
     n = 0
     for (what, k, exp), o, c in zip(meta, obs, cl):
         o = todict(o)
@@ -260,7 +274,7 @@ def judge_run(rep, m, spec, b, stats):
             rep.disagree(desc, oc, {"module": m.name, "call": c, "key": key, "want": want, "got": got,
                                     "case": m.cases[rec["case"]], "mapping": {"p": m.preal, "q": m.qreal},
                                     "options": spec.directives, "source": m.source[:8000]})
-    return n, len(cl)
+    return n
 
 
 # ----------------------------------------------------------------------------- text part
@@ -468,7 +482,7 @@ def text_part(rep, tl, tier, rng, cov, stats):
         jobs.append({"name": "e2x%d" % n, "source": body, "dirs": dirs, "transport": "cmdline", "directives": {}, "xargs": [t]})
         jmeta.append((t, "xopt", decode_map(c["xopt"])))
     mods = [(None, j) for j in jobs]
-    res = run_fact_jobs(mods, 8)
+    res = run_fact_jobs(mods, 8, "e2e")
     for j, (t, way, s) in zip(jobs, jmeta):
         r = res[j["name"]]
         desc = {"part": "list-e2e", "way": way, "expected": "accepted" if s is not None else "rejected"}
@@ -550,7 +564,7 @@ def header_scope_sweep(rep, table, stats):
         meta.append((name, tclass))
     if not jobs:
         return
-    res = run_fact_jobs([(None, j) for j in jobs], 4)
+    res = run_fact_jobs([(None, j) for j in jobs], 4, "hs")
     for j, (name, tclass) in zip(jobs, meta):
         r = res[j["name"]]
         stats["header_scope"] += 1
@@ -571,6 +585,54 @@ def group_by_src(cases):
 
 def has_deferred(c):
     return any(d["p"] or d["q"] for d in c["deferred"])
+
+
+def make_b1(sets, t3d, t3n, gsrc, quick, seed, rng):
+    q_rot = ["wraparound", "binding", "boundscheck"]
+    b1_groups = []
+    fdef = [c for c in t3d if any(n["kind"] in ("def", "cfn") for n in c["nodes"])]
+    nb = 1 if quick else 3
+    for i in range(nb):
+        b1_groups.append(core.sample(fdef, 6 if quick else 14, rng) + core.sample(t3n, 8 if quick else 16, rng))
+    conflict = [k for k in sorted(gsrc) if (lambda c: c["hpos"] == "top" and any(
+        c["hdr"][d] != "-" and c["opt"][d] != "-" and c["hdr"][d] != c["opt"][d] for d in "pq"))(gsrc[k][0])]
+    for i in range(nb):
+        b1_groups.append(core.sample(gsrc[rng.choice(conflict)], 16 if quick else 48, rng))
+    if sets["tree2"]:
+        g2 = group_by_src(sets["tree2"])
+        k2 = sorted(g2)
+        for i in range(nb):
+            b1_groups.append(core.sample(g2[k2[(seed + 1 + i * 2) % len(k2)]], 30, rng))
+    else:
+        # quick: a second header/option combination, header only or option only
+        single = [k for k in sorted(gsrc) if (lambda c: c["hpos"] != "top" or (c["hdr"] == {"p": "-", "q": "-"}) != (c["opt"] == {"p": "-", "q": "-"}))(gsrc[k][0])]
+        b1_groups.append(core.sample(gsrc[rng.choice(single)], 16, rng))
+    b1mods, specs = [], []
+    for i, g in enumerate(b1_groups):
+        m = L.Module("c41b%d" % i, g, "cdivision", q_rot[(i + seed) % 3], b1=True, with_style=i)
+        b1mods.append(m)
+        specs.append(core.BuildSpec(m.name, m.source, directives=m.directive_opts("opt")))
+    return b1mods, specs
+
+
+class Collector(object):
+    """Reporter stand-in for work done in a side thread; replayed into the real one afterwards"""
+
+    def __init__(self):
+        self.items = []
+
+    def disagree(self, desc, obs_class, detail):
+        self.items.append(("d", desc, obs_class, detail))
+
+    def spec_drift(self, what, detail=None):
+        self.items.append(("s", what, detail, None))
+
+    def replay(self, rep):
+        for kind, a, b, c in self.items:
+            if kind == "d":
+                rep.disagree(a, b, c)
+            else:
+                rep.spec_drift(a, b)
 
 
 def run(tier, seed):
@@ -608,9 +670,38 @@ def run(tier, seed):
     mods = make_b3_modules(group_by_src(pick3), rng, 30, "a")
     mods += make_b3_modules(group_by_src(pick2), rng, 30, "b")
     mods += make_b3_modules({k: gsrc[k] for k in src_keys}, rng, 48, "c")
+    # B3 children, B1 builds + runs and the text part run side by side; judging stays in this thread
+    b1mods, specs = make_b1(sets, t3d, t3n, gsrc, quick, seed, rng)
+    col = Collector()
+    tstats = dict(stats)
+    trng = random.Random(seed + 1)
+
+    def b1_work():
+        t = time.time()
+        builds = core.build_many(specs, jobs=par)
+        phases["b1_build"] = round(time.time() - t, 1)
+        out = [(b, execute_run(m, b) if b.ok else None) for m, b in zip(b1mods, builds)]
+        phases["b1_total"] = round(time.time() - t, 1)
+        return out
+
+    def text_work():
+        t = time.time()
+        table = text_part(col, tl, tier, trng, cov, tstats)
+        if not table or len(table["types"]) < 50:
+            core.die("directive table not exported")
+        name_sweep(col, table, tstats)
+        header_scope_sweep(col, table, tstats)
+        phases["texts"] = round(time.time() - t, 1)
+
     tp = time.time()
-    res = run_fact_jobs(mods, par)
-    phases["b3_children"] = round(time.time() - tp, 1)
+    with concurrent.futures.ThreadPoolExecutor(max_workers=3) as ex:
+        f_b3 = ex.submit(run_fact_jobs, mods, par)
+        f_b1 = ex.submit(b1_work)
+        f_tx = ex.submit(text_work)
+        res = f_b3.result()
+        phases["b3_children"] = round(time.time() - tp, 1)
+        b1_out = f_b1.result()
+        f_tx.result()
     n_fact = 0
     for m, job in mods:
         n_fact += judge_facts(rep, m, job, res[job["name"]], stats)
@@ -625,52 +716,18 @@ def run(tier, seed):
         core.die("binding self-test failed: a corrupted expectation was not rejected")
 
     # ---- B1
-    q_rot = ["wraparound", "binding", "boundscheck"]
-    b1_groups = []
-    fdef = [c for c in t3d if any(n["kind"] in ("def", "cfn") for n in c["nodes"])]
-    nb = 1 if quick else 3
-    for i in range(nb):
-        b1_groups.append(core.sample(fdef, 6 if quick else 14, rng) + core.sample(t3n, 8 if quick else 16, rng))
-    conflict = [k for k in sorted(gsrc) if (lambda c: c["hpos"] == "top" and any(
-        c["hdr"][d] != "-" and c["opt"][d] != "-" and c["hdr"][d] != c["opt"][d] for d in "pq"))(gsrc[k][0])]
-    for i in range(nb):
-        b1_groups.append(core.sample(gsrc[rng.choice(conflict)], 16 if quick else 48, rng))
-    if sets["tree2"]:
-        g2 = group_by_src(sets["tree2"])
-        k2 = sorted(g2)
-        for i in range(nb):
-            b1_groups.append(core.sample(g2[k2[(seed + 1 + i * 2) % len(k2)]], 30, rng))
-    else:
-        # quick: a second header/option combination, header only or option only
-        single = [k for k in sorted(gsrc) if (lambda c: c["hpos"] != "top" or (c["hdr"] == {"p": "-", "q": "-"}) != (c["opt"] == {"p": "-", "q": "-"}))(gsrc[k][0])]
-        b1_groups.append(core.sample(gsrc[rng.choice(single)], 16, rng))
-    b1mods, specs = [], []
-    for i, g in enumerate(b1_groups):
-        m = L.Module("c41b%d" % i, g, "cdivision", q_rot[(i + seed) % 3], b1=True, with_style=i)
-        b1mods.append(m)
-        specs.append(core.BuildSpec(m.name, m.source, directives=m.directive_opts("opt")))
-    tp = time.time()
-    builds = core.build_many(specs, jobs=par)
-    phases["b1_build"] = round(time.time() - tp, 1)
     n_run = n_calls = 0
-    for m, sp, b in zip(b1mods, specs, builds):
+    for m, sp, (b, executed) in zip(b1mods, specs, b1_out):
         if not b.ok:
             rep.disagree({"part": "scope", "point": "build", "kind": "module", "differs_from_owner": False, "owner_kind": "mod"},
                          "build-failed", {"module": m.name, "stage": b.stage, "errors": b.errors[-3000:], "source": m.source[:8000]})
             continue
-        a, b_ = judge_run(rep, m, sp, b, stats)
-        n_run += a
-        n_calls += b_
+        n_run += judge_run(rep, m, sp, executed, stats)
+        n_calls += len(executed[0])
 
-    phases["b1_total"] = round(time.time() - tp, 1)
-    # ---- texts
-    tp = time.time()
-    table = text_part(rep, tl, tier, rng, cov, stats)
-    if not table or len(table["types"]) < 50:
-        core.die("directive table not exported")
-    name_sweep(rep, table, stats)
-    header_scope_sweep(rep, table, stats)
-    phases["texts"] = round(time.time() - tp, 1)
+    # ---- texts (computed above)
+    col.replay(rep)
+    stats.update({k: v for k, v in tstats.items() if k not in ("fact_diffs", "run_diffs", "no_demand")})
 
     nontriv_cases = {L.case_key(c) for m, _ in mods for c in m.cases
                      if any(n["ov"] != {"p": "-", "q": "-"} for n in c["nodes"]) or c["hdr"] != c["opt"]}
